@@ -28,6 +28,11 @@ def cases(tier, seed):
         elif form < 0.9: e = '( $t := %s; [$t($), $t(a), $] )' % t
         else: e = '%s(%s)' % (t, rng.choice(['$', 'a', 'list', '5', 'nothing', '"s"', '$, 1', '']))
         add(e, doc(), ('transform',))
+    for stage in ['$reverse()', '$sort(function($l,$r){$l.v > $r.v})', '$filter(function($i){$i.v > 1})', '$append([])', '$distinct()', 'function($x){$x}', '$shuffle()']:
+        for t in ['|$|{"seen": true}, ["k"]|', '|$|{"v": v * 10}|', '|o|{"q": 1}|']:
+            add('list ~> %s ~> %s' % (stage, t), doc(), ('pipeline',) + (('unordered',) if 'shuffle' in stage else ()))
+    for e in ['$ ~> $lookup("a") ~> |$|{"owner": "me"}|', 'a ~> function($x){$x} ~> |$|{"z": 1}, "b"|', '( $t := |$|{"n": 1}|; $r := list ~> $reverse() ~> $t; $map(list, $t) )', 'list ~> $append([]) ~> |$|{"n": 1}| ~> |$|5|']:
+        add(e, doc(), ('pipeline',))
     # the known witness and relatives
     for e in ['$ ~> |$$|{"z":1}|', '( $v := a; $ ~> |$v|{"z":1}| )', '$ ~> |$$.a|{"z":1}, "b"|', 'a ~> |$$.list|{"z":1}|']:
         add(e, doc(), ('outside-copy',))
